@@ -1,6 +1,7 @@
 import RattrDriver.JsonUtil
 import RattrModel.Cache
 import RattrModel.CacheDeps
+import RattrModel.CacheRun
 
 /-! Driver ops for C19.
 
@@ -82,7 +83,13 @@ def handleGate (payload : Json) : R Json := do
   let structured : Bool := match classify render f with
     | .valid _ => true
     | _ => false
-  return (verdictJson v).mergeObj (Json.mkObj [("wellShaped", ws), ("structured", structured)])
+  -- the diagnostic the gate emits on its way to `stale`, and what it costs (`RattrModel.CacheRun`)
+  let diag := CacheRun.gateDiag CacheRun.GateLevels.real D w (classify render f)
+  let diagJ : Json := match diag with
+    | none => Json.null
+    | some l => Json.str l.name
+  return (verdictJson v).mergeObj (Json.mkObj [("wellShaped", ws), ("structured", structured),
+    ("diag", diagJ), ("gateBadness", Json.num (CacheRun.diagBadness diag))])
 
 /-! ### histories -/
 
@@ -305,5 +312,136 @@ def handleHistory (payload : Json) : R Json := do
   return Json.mkObj [("steps", Json.arr res)]
 
 end Deps
+
+/-! ### histories with symbolic links, damage to the cache file and strictness options
+(`RattrModel.CacheRun`) -/
+
+namespace X
+open Rattr.CacheDeps Rattr.CacheRun Rattr.Imports Deps
+
+abbrev SX := StateX String String ArgsKey String String
+
+structure RowX where
+  contents : List String
+  opts : ArgsKey
+  other : String
+  fails : Bool
+  badness : Option Nat
+  fresh : String
+
+def parseLimit (j : Json) : R Limit :=
+  match j with
+  | .str "strict" => .ok .strict
+  | _ => do return .threshold (← asNat j)
+
+def parseDamage (j : Json) : R Damage := do
+  match (← asStr j) with
+  | "removed" => return .removed
+  | "notJson" => return .notJson
+  | "raises:TypeError" => return .raises .typeError
+  | "raises:ClassValidationError" => return .raises .classValidation
+  | "raises:UnicodeDecodeError" => return .raises .unicodeDecode
+  | d => throw s!"unknown damage {d}"
+
+def parseOpX (pre : Str) (j : Json) : R (OpX String String ArgsKey String) := do
+  match (← asStr (← field j "op")) with
+  | "write" => return .write (← asStr (← field j "p")) (← asStr (← field j "c"))
+  | "relink" => return .relink (← asPairList (← field j "ps"))
+  | "setOptions" =>
+    return .setOptions (argsKey pre (← parseRaw (← field j "o"))) (← asStr (← field j "x"))
+  | "damage" => return .damage (← parseDamage (← field j "d"))
+  | "runWithCache" => return .runWithCache
+  | "forceRefresh" => return .forceRefresh
+  | o => throw s!"unknown op {o}"
+
+def parseLevel (j : Json) : R Level := do
+  match (← asStr j) with
+  | "info" => return .info
+  | "warning" => return .warning
+  | "error" => return .error
+  | l => throw s!"unknown level {l}"
+
+/-- op `cache_x_history` -/
+def handleHistory (payload : Json) : R Json := do
+  let S ← parseStatic (← field payload "static")
+  let pre := (← asStr (← field (← field payload "static") "litPrefix")).toList
+  let ij ← field payload "init"
+  let files ← asPairList (← field ij "files")
+  let links ← asPairList (fieldD ij "links" (Json.arr #[]))
+  -- `isfile` follows links: every link of the family leads to a regular file at all times
+  let D : Dir String String :=
+    { isFile := fun p => (lookupS p files).isSome || (lookupS p links).isSome
+      emptyHash := (← asStr (← field ij "emptyHash")) }
+  let fs0 : LinkFs String String :=
+    { files := fun p => (lookupS p files).getD "", resolve := fun p => (lookupS p links).getD p }
+  let w0 : WD :=
+    { target := (← asStr (← field ij "target"))
+      contents := fs0.view
+      opts := argsKey pre (← parseRaw (← field ij "opts"))
+      other := (← asStr (← field ij "other"))
+      version := (← asStr (← field ij "version"))
+      plugins := (← asStr (← field ij "plugins")) }
+  let keyPaths ← asStrList (← field payload "keyPaths")
+  let limits ← (← asArr (fieldD payload "limits" (Json.arr #[]))).mapM fun l => do
+    match (← asArr l) with
+    | [a, b] => return ((← asStr a), (← parseLimit b))
+    | _ => throw "expected [other, limit]"
+  let limitOf : String → Limit := fun x =>
+    ((limits.find? (fun l => l.1 = x)).map (·.2)).getD (.threshold 0)
+  let rows ← (← asArr (← field payload "analysis")).mapM fun r => do
+    let b ← match fieldD r "badness" Json.null with
+      | .null => pure none
+      | j => do pure (some (← asNat j))
+    return ({ contents := (← asStrList (← field r "contents")),
+              opts := argsKey pre (← parseRaw (← field r "opts")),
+              other := (← asStr (← field r "other")),
+              fails := (← asBool (← field r "fails")),
+              badness := b,
+              fresh := (← asStr (← field r "fresh")) } : RowX)
+  -- rows that carry a badness are keyed without the un-hashed options: the model itself decides
+  -- `fails` from badness and limit, for every strictness setting
+  let find : WD → Option RowX := fun w => rows.find? (fun r =>
+    r.contents = keyPaths.map w.contents && r.opts = w.opts && (r.badness.isSome || r.other = w.other))
+  let A0 : AnalysisB String String ArgsKey String String :=
+    depsAnalysisB S D (fun w => ((find w).map (·.fresh)).getD "<no-row>")
+      (fun w => ((find w).bind (·.badness)).getD 0) limitOf
+  let A : AnalysisB String String ArgsKey String String :=
+    { A0 with stageFails := fun w => A0.stageFails w ||
+        ((find w).map (fun r => r.badness.isNone && r.fails)).getD false }
+  let G : GateLevels ← match payload.getObjVal? "levels" with
+    | .ok lj => do
+      pure { noTarget := (← parseLevel (fieldD lj "noTarget" "info")),
+             noCache := (← parseLevel (fieldD lj "noCache" "info")),
+             malformed := (← parseLevel (fieldD lj "malformed" "info")) }
+    | .error _ => pure GateLevels.real
+  let disk0 : CacheFile String String ArgsKey String ←
+    match (← asStr (← field payload "disk")) with
+    | "absent" => pure .absent
+    | "malformed" => pure .malformed
+    | "crashing" => pure (.crashing .typeError)
+    | d => throw s!"unknown disk {d}"
+  let ops ← (← asArr (← field payload "ops")).mapM (parseOpX pre)
+  let mut s : SX := { fs := fs0, st := { world := w0, disk := disk0 } }
+  let mut res : Array Json := #[]
+  for o in ops do
+    let (s', out) := stepX G D A s o
+    let extra : List (String × Json) := match o with
+      | .runWithCache | .forceRefresh =>
+        let r := CacheDeps.run S D s.st.world
+        [("missingRow", Json.bool (find s.st.world).isNone),
+         ("key", keyJson s.st.world.opts),
+         ("bfs", Json.str (bfsOutcome r)),
+         ("analysed", jStrList (r.state.analysed.map String.ofList)),
+         ("readSet", jStrList (CacheDeps.readSet S D s.st.world)),
+         ("recorded", jStrList (CacheDeps.recorded S D s.st.world)),
+         ("builtinsUnreadable", Json.bool (BuiltinsUnreadable S)),
+         ("gateBadness", Json.num (diagBadness (gateDiag G D s.st.world s.st.disk))),
+         ("plainOk", Json.bool (plainRunOk A s.st.world))]
+      | _ => []
+    res := res.push (Json.mkObj ([("out", Json.str (outStr out)), ("disk", diskJsonD s'.st.disk)] ++ extra))
+    s := s'
+  return Json.mkObj [("steps", Json.arr res)]
+
+end X
 
 end Rattr.Driver.C19
